@@ -305,13 +305,20 @@ where
             let l = sum.clone() / T::from_f64(2.0);
             if max.neq(&min).is_true() {
                 // `2 - sum` can be rounded to 0 when `max` is 1 and `min` is
-                // close to 1. This form is never 0 when `max != min`.
+                // close to 1. This form is never 0 when `max != min`, unless
+                // the color is out of gamut with `max` and `min` at the same
+                // distance from 1 (lightness 1). The saturation is 0 then.
                 let inverted_sum = (T::one() - &max) + (T::one() - &min);
                 let d = max - min;
-                s = if sum.gt(&T::one()).is_true() {
-                    d.clone() / inverted_sum
+                let divisor = if sum.gt(&T::one()).is_true() {
+                    inverted_sum
                 } else {
-                    d.clone() / sum
+                    sum
+                };
+                s = if divisor.eq(&T::zero()).is_true() {
+                    T::zero()
+                } else {
+                    d.clone() / divisor
                 };
                 h = ((sep / d) + coeff) * T::from_f64(60.0);
             };
@@ -339,12 +346,14 @@ where
             let lightness = T::from_f64(0.5) * &sum;
 
             let chroma = max.clone() - &min;
+            // `2 - sum` can be rounded to 0 when `max` is 1 and `min` is
+            // close to 1. This form is never 0 when `max != min`, unless the
+            // color is out of gamut with `max` and `min` at the same distance
+            // from 1 (lightness 1). The saturation is 0 then.
+            let divisor = sum.gt(&T::one()).select((T::one() - &max) + (T::one() - &min), sum.clone());
             let saturation = lazy_select! {
-                if min.eq(&max) => T::zero(),
-                // `2 - sum` can be rounded to 0 when `max` is 1 and `min` is
-                // close to 1. This form is never 0 when `max != min`.
-                else => chroma.clone() /
-                    sum.gt(&T::one()).select((T::one() - &max) + (T::one() - &min), sum.clone()),
+                if min.eq(&max) | divisor.eq(&T::zero()) => T::zero(),
+                else => chroma.clone() / divisor,
             };
 
             // Each of these represents an RGB component. The maximum will be false
